@@ -357,9 +357,21 @@ def junk_ex_cases(rng, count):
     the 512-byte limit, empty buffers"""
     out = []
     pieces = ["/", "?", "\\", "|", "%", "#", "'", "\"", "+", "-", ",", ";", " ", "0", "9", "99999", "a", "b", "x", "\\(", "\\)", "[", "]", "*", "^", "$", ".", "&", "~", "{", "}", "<", ">", "=", "!", "@", "\t"]
-    for _ in range(count):
+    for ci in range(count):
         content = rand_content(rng) if rng.below(5) else None
         lines = []
+        if ci % 20 == 9:
+            # registers that execute registers (themselves, each other, through :g), register texts that rewrite the
+            # register being executed, globals whose command list leaves no current line
+            k = rng.below(6)
+            if k == 0: content, lines = "@a\n", ["y a", "@a", "%p"]
+            elif k == 1: content, lines = "@b\n@a\nx\n", ["1y a", "2y b", rng.choice(["@a", "@b", "3@a", "g/x/@a"]), "%p"]
+            elif k == 2: content, lines = "y a|p\nz\n", ["1y a", "@a", "@a", "%p"]
+            elif k == 3: content, lines = rng.choice(["g/./@a\nq\n", "1,2g/./@a\n", "e +@a fa\n"]), ["1y a", "@a", "%p"]
+            elif k == 4: content, lines = "a\nb\na\n", [rng.choice(["g/a/c", "g/a/1c", "1g/a/c", "g/a/c|p", "v/b/c", "g/a/0i"]), ".", "%p", "u", "%p"]
+            else: content, lines = "d a|pu a|y a|@a\nt\n", ["1y a", "2@a", "%p"]
+            lines.append("q!")
+            out.append(case([("fa", content)], ["fa"], lines)); continue
         for _ in range(1 + rng.below(8)):
             m = rng.below(10)
             if m < 5:
